@@ -50,7 +50,8 @@ def configs(name, rng, p, groups):
     if name == "WeightedLasso":
         base["weights"] = "rand"
         var += [("weights_with_zeros", dict(weights="zeros")), ("weights_none", dict(weights=None)),
-                ("weights_spread", dict(weights="spread"))]
+                ("weights_spread", dict(weights="spread")), ("weights_constant", dict(weights="constant")),
+                ("weights_all_zero", dict(weights="allzero"))]
     if name == "ElasticNet":
         base["l1_ratio"] = 0.5
         var += [("l1_ratio_1", dict(l1_ratio=1.0)), ("l1_ratio_small", dict(l1_ratio=0.05)), ("l1_ratio_0.9", dict(l1_ratio=0.9)),
@@ -134,6 +135,10 @@ def _weights(kind, rng, m):
         w[rng.choice(m, max(1, m // 4), replace=False)] = 0.0
     if kind == "spread":
         w = 10 ** rng.uniform(-1.5, 1.5, size=m)
+    if kind == "constant":
+        w = np.full(m, float(rng.choice([0.25, 3.0])))      # all equal but not one: alpha is effectively rescaled
+    if kind == "allzero":
+        w = np.zeros(m)                                       # nothing penalised: least squares
     return w
 
 
